@@ -39,6 +39,7 @@ func TestFaultAccounting(t *testing.T) {
 		}
 		for i := 0; i < allocN; i++ {
 			runAccounted(t, clone(world.FaultAt{Target: "alloc", Rel: i}))
+			runAccounted(t, clone(world.FaultAt{Target: "alloc-consumed", Rel: i}))
 		}
 		// a key secret that cannot be opened for reading / cannot be re-protected after its callback ran
 		for i := 0; i < readsN; i++ {
